@@ -251,10 +251,23 @@ func (e *Engine) strBytes(st *State, s StrV, i int) *Term {
 
 func (e *Engine) lenBound(t *Term, what string) int {
 	um := e.ts.UMax(t)
-	if um > 1<<20 {
-		panic(encErr(fmt.Sprintf("unbounded symbolic length in %s (%s)", what, t)))
+	if um <= 1<<16 {
+		return int(um)
 	}
-	return int(um)
+	// ask the solver for an upper bound under the current path condition
+	if b, ok := e.boundCache[t.id]; ok {
+		return b
+	}
+	if e.cur != nil {
+		for _, k := range []uint64{32, 128, 512, 2048, 1 << 14, 1 << 16} {
+			sat, _, certain := e.feasible(e.cur, e.ts.Ult(e.ts.Const(t.w, k), t))
+			if !sat && certain {
+				e.boundCache[t.id] = int(k)
+				return int(k)
+			}
+		}
+	}
+	panic(encErr(fmt.Sprintf("unbounded symbolic length in %s (%s)", what, t)))
 }
 
 func (e *Engine) strEq(st *State, a, b StrV) *Term {
@@ -387,6 +400,9 @@ func (e *Engine) copyCells(st *State, dst *Object, doff *Term, src *Object, soff
 		if inRange.IsFalse() {
 			break
 		}
+		if v == nil {
+			continue // source offset has no candidate inside the object: unreachable under the caller's bounds checks
+		}
 		didx := e.ts.Add(doff, ci)
 		if inRange.IsTrue() {
 			e.storeCells(st, dst, didx, []Value{v})
@@ -424,7 +440,7 @@ func (e *Engine) guardedStore(st *State, o *Object, idx *Term, v Value, guard *T
 		if m, ok := e.mergeValue(guard, v, cells[k]); ok {
 			cells[k] = m
 		} else {
-			panic(encErr("guardedStore: incompatible cell shapes"))
+			panic(encErr(fmt.Sprintf("guardedStore: incompatible cell shapes: %T into %T (%s cell %d)", v, cells[k], o, k)))
 		}
 		return
 	}
